@@ -329,7 +329,7 @@ pub fn has_required_break(problem: &Value) -> bool {
     problem["fleet"]["vehicles"].as_array().into_iter().flatten().flat_map(|v| v["shifts"].as_array().into_iter().flatten()).flat_map(|s| s.get("breaks").and_then(|b| b.as_array()).into_iter().flatten()).any(|b| b.get("places").is_none())
 }
 
-fn is_metric(matrices: &[Value]) -> bool {
+pub fn is_metric(matrices: &[Value]) -> bool {
     for m in matrices {
         for key in ["travelTimes", "distances"] {
             if let Some(a) = m.get(key).and_then(|a| a.as_array()) {
